@@ -72,7 +72,7 @@ def run(tier, seed):
         "samples": [rows[0], next((x for x in rows if x.get("qcs")), rows[2]), next((x for x in kr if x.get("qcs")), kr[0] if kr else {})],
         "evaluations": len(allrows), "distinct_nontrivial": ops.get("new", 0),
         "rule": "clique: per round a puppet leader's proposal and votes (valid, duplicate, wrong-block, relabelled, two-signer, stale, unknown-block, outsider) reach a real "
-                "replica's VotingMachine in scheduler order, before or after the block, synchronous and asynchronous verification (completion order chosen by the scheduler), "
+                "replica's VotingMachine in scheduler order, before or after the block, sometimes with a view change on a timeout certificate in between, synchronous and asynchronous verification (completion order chosen by the scheduler), "
                 "n in {4,7}, three schemes; kauri: contributions (valid, overlapping, invalid, duplicate, wrong view, from non-children) at real Kauri nodes (root, inner, leaf); "
                 "every emitted certificate / contribution is verified by the other replicas' real Authority",
         "ops": ops, "certificates_emitted": sum(len(x.get("qcs") or []) for x in allrows),
